@@ -8,7 +8,7 @@
    requests the server drops), its crash countdown (which crash point kills the process) and the
    observed iteration orders. *)
 From Coq Require Import NArith List.
-From Verif Require Import Model.Gigaword Model.Acct Model.AcctSpec Proofs.AcctProofs.
+From Verif Require Import Model.Gigaword Model.Acct Model.AcctSpec Proofs.AcctProofs Proofs.AcctExact.
 Import ListNotations.
 Local Open Scope N_scope.
 
@@ -39,6 +39,55 @@ Print Assumptions C08_gigaword_fits.
 Theorem C08_counters_reported_exactly : C08_clause 6.
 Proof. exact (clause_256 6 (or_intror (or_intror eq_refl))). Qed.
 Print Assumptions C08_counters_reported_exactly.
+
+(* (7) "records report the session's 64-bit counters EXACTLY", stated on what reaches the RADIUS server
+   (decoded through the low-word/gigaword split), over ALL histories, outage patterns, crash points
+   and patterns of counter-fetcher failure ([fe] of Stop / InterimTick / GracefulStop = the sessions for
+   which the counter callback fails during that op; [cs] = what the callback returns per session):
+     - a Stop / Interim-Update built by StopSession, the interim scan or the shutdown drain reports
+       the counter source's value for ITS OWN session; when the source fails for that session it
+       reports the values of the session's last Interim-Update that RADIUS acknowledged when it was
+       first sent (0,0 if there was none since the session started) - never anything else;
+     - a record re-sent from the pending queue / retry scan (also after pending.json was reloaded by
+       a later process) repeats what an earlier transmission of a record of that session and status
+       reported;
+     - a Stop produced by orphan recovery (no counter source) reports the session's last accepted
+       values or 0,0.
+   [holds7] = Model/AcctSpec.v [ev7]/[run7] along the trace; this is the clause-7 monitor the harness
+   runs on the implementation's traces. *)
+Theorem C08_counters_exact_or_last_accepted : forall maxr ops, holds7 ainit (trace maxr ops) = true.
+Proof. exact clause7_all. Qed.
+Print Assumptions C08_counters_exact_or_last_accepted.
+
+(* non-vacuity of (7): two sessions with their own counters; session 1's fetcher fails at the second
+   interim and at StopSession, the Stop is dropped and re-sent from the queue: every record of
+   session 1 after the first interim reports the last ACCEPTED values 5368709137 / 9663676419 (> 2^32:
+   through gigawords), not the 99/99 the failing source would have given and not 0 *)
+Theorem C08_counters_fallback_example : w7_reports =
+  [(1, 1, (0, 0)); (1, 2, (0, 0));
+   (3, 1, (5368709137, 9663676419)); (3, 2, (7, 4294967296));
+   (3, 1, (5368709137, 9663676419)); (3, 2, (8, 8));
+   (2, 1, (5368709137, 9663676419)); (3, 2, (8, 8)); (2, 1, (5368709137, 9663676419));
+   (2, 2, (18446744073709551615, 3))].
+Proof. exact w7_ok. Qed.
+Print Assumptions C08_counters_fallback_example.
+
+(* ... and the monitor does reject the same history when session 1's Stop reports 0,0 instead (what a
+   StopSession that forgets the session before the fallback runs would send), although clause 6
+   (membership in the supplied pairs, where 0,0 is always allowed) accepts it *)
+Theorem C08_clause7_rejects_zeroed_stop : holds7 ainit w7_bad = false /\ holds 6 (sinit 3) w7_bad = true.
+Proof. exact w7_bad_rejected. Qed.
+Print Assumptions C08_clause7_rejects_zeroed_stop.
+
+(* the acceptor with clause 7: rejects with 7 only where clauses 1-6 accept and the clause-7 run fails *)
+Theorem C08_acceptor7_sound : forall st o r,
+  match accept7 st o r with
+  | inl st' => accept (fst st) o r = inl (fst st') /\ run7 o (pre7 (snd st) o r) (o_ev r) = (true, snd st')
+  | inr k => accept (fst st) o r = inr k \/
+             (k = 7 /\ (exists ss', accept (fst st) o r = inl ss') /\ fst (run7 o (pre7 (snd st) o r) (o_ev r)) = false)
+  end.
+Proof. exact accept7_sound. Qed.
+Print Assumptions C08_acceptor7_sound.
 
 (* (1) no Stop before its Start: refuted (K08a) *)
 Theorem C08_stop_after_start_refuted : ~ C08_clause 1.
@@ -93,7 +142,7 @@ Print Assumptions C08_stop_delivered_or_durable_partial.
    the guard holds, the Stop is dropped twice, delivered on the third transmission, and the Final
    observation has something to check (one ended session) *)
 Definition C08_ex_ops : list op :=
-  [Start 1 (1, 2, 3) [] 0; InterimTick 4294967296 7 [] [(1, 3)] [1] 0; Stop 1 1 18446744073709551615 4294967295 [] [(1, 2)] 0;
+  [Start 1 (1, 2, 3) [] 0; InterimTick [(1, (4294967296, 7))] [] [(1, 3)] [1] 0; Stop 1 1 18446744073709551615 4294967295 [] [(1, 2)] 0;
    ProcessQueued [] 0; ProcessQueued [(1, 2)] 0; RetryTick [] [0] 0; Final].
 Example C08_partial_guard_satisfiable :
   (crash_free C08_ex_ops = true) /\
